@@ -2,7 +2,7 @@
 # tools/mutbatch.sh <ID> [extra check IDs...] : verify and check mutants A and B of /tmp/mut-out/<ID>
 id=$1; shift
 for m in A B C; do
-  d=/tmp/mut-out/$id/$m
+  d=${MUTOUT:-/tmp/mut-out}/$id/$m
   [ -f $d/patch.diff ] || continue
   timeout 900 /verif/tools/mutant.sh verify $d 2>&1 | grep RESULT
   timeout 3000 /verif/tools/mutant.sh check $d $id "$@" 2>&1 | grep "^CHECK"
